@@ -315,7 +315,7 @@ func textOp(m *engine.Mismatch, ops ...string) (string, bool) {
 // Go's strconv syntax accepts it: underscores, inf/infinity/nan in any case,
 // hexadecimal floats with a p exponent.
 func sigToNumberGoSyntax(m *engine.Mismatch) bool {
-	s, ok := textOp(m, "Number", "+")
+	s, ok := textOp(m, "Number", "+", "-0", "*1")
 	if !ok || !isNaNStr(m.Expected) {
 		return false
 	}
@@ -326,7 +326,7 @@ func sigToNumberGoSyntax(m *engine.Mismatch) bool {
 // sigToNumberBigHex: a HexIntegerLiteral of 2^63 or more is rejected (NaN)
 // because strconv.ParseInt(s, 0, 64) reports a range error.
 func sigToNumberBigHex(m *engine.Mismatch) bool {
-	s, ok := textOp(m, "Number", "+")
+	s, ok := textOp(m, "Number", "+", "-0", "*1")
 	if !ok || !isNaNStr(m.Observed) {
 		return false
 	}
